@@ -110,10 +110,14 @@ Fixpoint drain (n : nat) (fuel : nat) (reqs : list (list nat)) (s : astate nat) 
       end
   end.
 
-Fixpoint enc_final (s : astate nat) (done : list bool) (i : nat) : list sexp :=
+(* what a request saw is observable (on the Rust side) only through its keys: none for an empty key list *)
+Definition visible_seen (reqs : list (list nat)) (i : nat) (seen : list nat) : list nat :=
+  match nth_error reqs i with Some (_ :: _) => seen | _ => [] end.
+
+Fixpoint enc_final (reqs : list (list nat)) (s : astate nat) (done : list bool) (i : nat) : list sexp :=
   match done with
   | [] => []
-  | d :: r => L [sym (if d then "done" else "waiting"); slist snat (seen_of s i)] :: enc_final s r (S i)
+  | d :: r => L [sym (if d then "done" else "waiting"); slist snat (visible_seen reqs i (seen_of s i))] :: enc_final reqs s r (S i)
   end.
 
 Definition run_async (reqs : list (list nat)) (script : list (sstep nat)) (sched : list xstep) : sexp :=
@@ -122,7 +126,7 @@ Definition run_async (reqs : list (list nat)) (script : list (sstep nat)) (sched
   let done0 := repeat false n in
   let '(s1, d1, outs) := xrun fuel reqs (init script n) done0 sched in
   let '(s2, d2, douts) := drain 1000 fuel reqs s1 d1 in
-  L [L outs; L douts; L (enc_final s2 d2 0)].
+  L [L outs; L douts; L (enc_final reqs s2 d2 0)].
 
 (* sync: request i uses handle i and runs to completion *)
 Fixpoint run_sync_reqs (fuel : nat) (reqs : list (list nat)) (c : cache nat) (i : nat) : cache nat * list sexp :=
@@ -132,7 +136,8 @@ Fixpoint run_sync_reqs (fuel : nat) (reqs : list (list nat)) (c : cache nat) (i 
       match request_sync fuel (answers ds) c i with
       | Done (c1, _) =>
           let seen_i := match nth_error (c_cons c1) i with Some k => seen k | None => [] end in
-          let o := L [sym "req"; enc_results seen_i ds; snat (c_calls c1); snat (length (c_items c1)); slist snat seen_i] in
+          let o := L [sym "req"; enc_results seen_i ds; snat (c_calls c1); snat (length (c_items c1));
+                      slist snat (match ds with [] => [] | _ => seen_i end)] in
           let '(c2, os) := run_sync_reqs fuel r c1 (S i) in
           (c2, o :: os)
       | Panic t => (c, [L [sym "PANIC"; sym t]])
